@@ -379,6 +379,8 @@ def run_chain(sh, res):
                     # (the rotation that died right after creating its file happened a moment ago, before the restart)
                     open(os.path.join(root, pdir(), 'msg', '%s.msg' % (1700000000.0 + reactor._now + 0.05)), 'w').close()
                 reactor._now += rng.choice([0.2, 2.0, 100.0])
+                if rng.random() < 0.3:
+                    env.MONO_OFFSET[0] = -reactor._now        # the machine was rebooted: uptime starts again
             if not ok:
                 continue
             try:
